@@ -7,7 +7,11 @@ import (
 	"encoding/json"
 	"fmt"
 	"os"
+	"bytes"
 	"reflect"
+	"regexp"
+	"strconv"
+	"strings"
 	"time"
 
 	"github.com/cinar/indicator/v2/helper"
@@ -27,22 +31,45 @@ func replayViewsMain(args []string) {
 	sc.Buffer(make([]byte, 1<<20), 1<<26)
 	var mm []string
 	n := 0
+	rendered := 0
 	for sc.Scan() {
 		var c struct {
 			H []struct {
 				Op     string `json:"op"`
 				Charts []int  `json:"charts"`
+				Kind   string `json:"kind"`
 				Ret    int    `json:"ret"`
 			} `json:"h"`
 			Views [][]int `json:"views"`
 			NCols int     `json:"ncols"`
+			Doc   *struct {
+				Containers []int `json:"containers"`
+				Wrappers   []struct {
+					Container int   `json:"container"`
+					Height    int   `json:"height"`
+					Columns   []int `json:"columns"`
+				} `json:"wrappers"`
+				Declared []struct {
+					Type string `json:"type"`
+					Role string `json:"role"`
+				} `json:"declared"`
+				Rows  [][][]int `json:"rows"`
+				Bound []int     `json:"bound"`
+			} `json:"doc"`
 		}
 		if err := json.Unmarshal(sc.Bytes(), &c); err != nil {
 			fmt.Fprintln(os.Stderr, "bad history:", err)
 			os.Exit(3)
 		}
 		n++
-		dates := make(chan time.Time)
+		nd := 0
+		if c.Doc != nil {
+			nd = len(c.Doc.Rows)
+		}
+		dates := make(chan time.Time, nd)
+		for i := 0; i < nd; i++ {
+			dates <- time.Date(2021, 3, 1+i, 0, 0, 0, 0, time.UTC)
+		}
 		close(dates)
 		r := helper.NewReport("t", dates)
 		for i, st := range c.H {
@@ -52,9 +79,22 @@ func replayViewsMain(args []string) {
 					mm = append(mm, fmt.Sprintf("history %d step %d: AddChart returned %d, prescribed %d", n, i, id, st.Ret))
 				}
 			case "column":
-				vals := make(chan float64)
-				close(vals)
-				r.AddColumn(helper.NewNumericReportColumn("c", vals), st.Charts...)
+				col := st.Ret
+				if st.Kind == "ann" {
+					vals := make(chan string, nd)
+					for k := 1; k <= nd; k++ {
+						vals <- viewsAnn(col, k)
+					}
+					close(vals)
+					r.AddColumn(helper.NewAnnotationReportColumn(vals), st.Charts...)
+				} else {
+					vals := make(chan float64, nd)
+					for k := 1; k <= nd; k++ {
+						vals <- float64(col*100 + k)
+					}
+					close(vals)
+					r.AddColumn(helper.NewNumericReportColumn("c"+strconv.Itoa(col), vals), st.Charts...)
+				}
 				if len(r.Columns) != st.Ret && len(mm) < 20 {
 					mm = append(mm, fmt.Sprintf("history %d step %d: %d columns after AddColumn, prescribed id %d", n, i, len(r.Columns), st.Ret))
 				}
@@ -71,9 +111,128 @@ func replayViewsMain(args []string) {
 		if !reflect.DeepEqual(got, want) && len(mm) < 20 {
 			mm = append(mm, fmt.Sprintf("history %d (%v): Views = %v, prescribed %v", n, c.H, got, want))
 		}
+		if c.Doc != nil {
+			rendered++
+			var buf bytes.Buffer
+			if err := r.WriteToWriter(&buf); err != nil {
+				if len(mm) < 20 {
+					mm = append(mm, fmt.Sprintf("history %d (%v): WriteToWriter: %v", n, c.H, err))
+				}
+				continue
+			}
+			gd := viewsParse(buf.String())
+			kinds := []string{}
+			for _, st := range c.H {
+				if st.Op == "column" {
+					kinds = append(kinds, st.Kind)
+				}
+			}
+			wd := viewsDoc{}
+			wd.Containers = append([]int{}, c.Doc.Containers...)
+			wd.Bound = append([]int{}, c.Doc.Bound...)
+			for _, w := range c.Doc.Wrappers {
+				wd.Wrappers = append(wd.Wrappers, fmt.Sprintf("chart%d h=%d cols=%v", w.Container, w.Height, w.Columns))
+			}
+			for i, d := range c.Doc.Declared {
+				label := ""
+				if kinds[i] != "ann" {
+					label = "c" + strconv.Itoa(i+1)
+				}
+				wd.Declared = append(wd.Declared, d.Type+"/"+label+"/"+d.Role)
+			}
+			for ri, row := range c.Doc.Rows {
+				cells := []string{time.Date(2021, 3, 1+ri, 0, 0, 0, 0, time.UTC).Format(r.DateFormat)}
+				for _, cell := range row {
+					col, k := cell[0], cell[1]
+					if kinds[col-1] == "ann" {
+						if a := viewsAnn(col, k); a == "" {
+							cells = append(cells, "null")
+						} else {
+							cells = append(cells, strconv.Quote(a))
+						}
+					} else {
+						cells = append(cells, strconv.Itoa(col*100+k))
+					}
+				}
+				wd.Rows = append(wd.Rows, strings.Join(cells, "|"))
+			}
+			if !reflect.DeepEqual(gd, wd) && len(mm) < 20 {
+				mm = append(mm, fmt.Sprintf("history %d (%v): rendered document %+v, prescribed %+v", n, c.H, gd, wd))
+			}
+		}
 	}
-	b, _ := json.Marshal(map[string]any{"histories": n, "mismatches": mm})
+	b, _ := json.Marshal(map[string]any{"histories": n, "rendered": rendered, "mismatches": mm})
 	fmt.Println(string(b))
+}
+
+// the annotation of column col at position k: every second one is empty (rendered as null)
+func viewsAnn(col, k int) string {
+	if k%2 == 0 {
+		return ""
+	}
+	return fmt.Sprintf("a%d_%d", col, k)
+}
+
+// what the rendered HTML / JS says, in the vocabulary of ReportViews.tla's Doc
+type viewsDoc struct {
+	Containers []int
+	Wrappers   []string
+	Declared   []string
+	Rows       []string
+	Bound      []int
+}
+
+var (
+	reViewDiv   = regexp.MustCompile(`<div id="chart(\d+)"></div>`)
+	reViewWrap  = regexp.MustCompile(`(?s)var chart(\d+) = new google\.visualization\.ChartWrapper\(\{.*?"containerId": "chart(\d+)".*?"height":\s*(\d+),.*?"columns": \[(.*?)\]`)
+	reViewDecl  = regexp.MustCompile(`(?s)data\.addColumn\(\{\s*"type": "([^"]*)",\s*"label": "([^"]*)",\s*"role": "([^"]*)",\s*\}\);`)
+	reViewRow   = regexp.MustCompile(`(?s)data\.addRow\(\[\s*new Date\("([^"]*)"\),(.*?)\]\);`)
+	reViewBind  = regexp.MustCompile(`(?s)dashboard\.bind\(rangeFilter, \[(.*?)\]\);`)
+	reViewChart = regexp.MustCompile(`chart(\d+),`)
+)
+
+func viewsParse(html string) viewsDoc {
+	d := viewsDoc{}
+	for _, m := range reViewDiv.FindAllStringSubmatch(html, -1) {
+		i, _ := strconv.Atoi(m[1])
+		d.Containers = append(d.Containers, i)
+	}
+	for _, m := range reViewWrap.FindAllStringSubmatch(html, -1) {
+		cols := []int{}
+		for _, f := range strings.Split(m[4], ",") {
+			if f = strings.TrimSpace(f); f != "" {
+				v, err := strconv.Atoi(f)
+				if err != nil {
+					v = -999
+				}
+				cols = append(cols, v)
+			}
+		}
+		name := "chart" + m[2]
+		if m[1] != m[2] {
+			name = "var chart" + m[1] + " in container chart" + m[2]
+		}
+		d.Wrappers = append(d.Wrappers, fmt.Sprintf("%s h=%s cols=%v", name, m[3], cols))
+	}
+	for _, m := range reViewDecl.FindAllStringSubmatch(html, -1) {
+		d.Declared = append(d.Declared, m[1]+"/"+m[2]+"/"+m[3])
+	}
+	for _, m := range reViewRow.FindAllStringSubmatch(html, -1) {
+		cells := []string{m[1]}
+		for _, f := range strings.Split(m[2], ",\n") {
+			if f = strings.TrimSpace(f); f != "" {
+				cells = append(cells, strings.TrimSuffix(f, ","))
+			}
+		}
+		d.Rows = append(d.Rows, strings.Join(cells, "|"))
+	}
+	if m := reViewBind.FindStringSubmatch(html); m != nil {
+		for _, c := range reViewChart.FindAllStringSubmatch(m[1], -1) {
+			i, _ := strconv.Atoi(c[1])
+			d.Bound = append(d.Bound, i)
+		}
+	}
+	return d
 }
 
 func init() { extraCmds["replay-views"] = replayViewsMain }
